@@ -80,7 +80,7 @@ var c15Progs = []string{
 	"x := 1\nfunc g(p) {\n    v := p\n    return v + 1\n}\nfunc f(q) {\n    w := g(q)\n    return w + 1\n}\ny := f(x)\nz := y + 1\n",
 	strings.Repeat("\n", 20) + "a := 1\nb := a + 1\nc := b\n",
 }
-var c15Lines = [][]int{{3, 7, 10}, {22}}
+var c15Lines = [][]int{{1, 3, 7, 10}, {2, 22}} // 1 / 10 and 2 / 22: one breakpoint key is a prefix of the other
 
 // a program whose error leaves two frames before it is caught (break on error suspends where it leaves the first)
 var c15ErrProg = "x := 1\nfunc g(p) {\n    raise(\"E\", \"d\")\n}\nfunc f(q) {\n    w := g(q)\n    return w\n}\ntry {\n    y := f(x)\n} except e {\n    z := 2\n}\nv := 3\n"
@@ -238,6 +238,7 @@ func followDebugger(progs []string, visits [][]dbgVisit, steps []dbgStep, strict
 		pos[k] = 1
 	}
 	pendingIn := make([]bool, len(progs))
+	owed := make([]bool, len(progs)) // a continue command was addressed to the thread while it was reported as suspended
 	killing := false
 	point := map[string]string{"visit": "debug.visit", "in": "debug.stepin", "out": "debug.stepout", "outerr": "debug.stepout"}
 	where := func(st *sched.Stable, k int) string {
@@ -323,6 +324,11 @@ func followDebugger(progs []string, visits [][]dbgVisit, steps []dbgStep, strict
 				}
 			}
 		case "Continue":
+			if d, _ := rig.dbg.Describe(rig.tids[k]).(map[string]interface{}); d != nil {
+				if running, _ := d["threadRunning"].(bool); !running {
+					owed[k] = true
+				}
+			}
 			done := make(chan struct{})
 			go func() { rig.dbg.Continue(rig.tids[k], contTypes[step.Arg]); close(done) }()
 			select {
@@ -350,6 +356,20 @@ func followDebugger(progs []string, visits [][]dbgVisit, steps []dbgStep, strict
 			break
 		}
 		if lostWakeup(st) {
+			break
+		}
+		// a thread reported as suspended is released by the next continue addressed to it: once it is past its gate
+		// it must not wait any more
+		for t := range progs {
+			w := where(st, t)
+			if owed[t] && strings.Contains(w, "Cond.Wait") {
+				res.sig = "C15 continue command consumed without releasing the suspended thread"
+				res.violation = fmt.Sprintf("thread %d was reported as suspended, a continue command was addressed to it, and it waits in cond.Wait", rig.tids[t])
+			} else if w != "debug.suspend" {
+				owed[t] = false
+			}
+		}
+		if res.violation != "" {
 			break
 		}
 		if strict {
@@ -559,7 +579,12 @@ func runObserved(src string, debug bool, rng *rand.Rand, bps []int, events int) 
 			erp.Processor.Start()
 			for e := 0; e < events; e++ {
 				m := erp.Processor.NewRootMonitor(nil, nil)
-				erp.Processor.AddEventAndWait(engine.NewEvent(fmt.Sprintf("e%d", e), []string{"c", "ev"}, map[interface{}]interface{}{"n": float64(e)}), m)
+				event := engine.NewEvent(fmt.Sprintf("e%d", e), []string{"c", "ev"}, map[interface{}]interface{}{"n": float64(e)})
+				if events > 10 {
+					erp.Processor.AddEvent(event, m) // all at once: Finish waits for them
+				} else {
+					erp.Processor.AddEventAndWait(event, m)
+				}
 			}
 			erp.Processor.Finish()
 		}
@@ -568,14 +593,25 @@ func runObserved(src string, debug bool, rng *rand.Rand, bps []int, events int) 
 	case <-done:
 	case <-time.After(20 * time.Second):
 		close(stop)
-		clientDone.Wait()
-		if dbg != nil {
-			for i := 0; i < 20; i++ {
-				dbg.StopThreads(0)
-				time.Sleep(5 * time.Millisecond)
+		// the client itself may be stuck inside a command: neither it nor the clean-up is waited for without bound
+		cleaned := make(chan struct{})
+		go func() {
+			clientDone.Wait()
+			if dbg != nil {
+				for i := 0; i < 20; i++ {
+					dbg.StopThreads(0)
+					time.Sleep(5 * time.Millisecond)
+				}
 			}
+			close(cleaned)
+		}()
+		why := fmt.Sprintf("the run does not end although the client continued %d suspensions", atomic.LoadInt64(&conts))
+		select {
+		case <-cleaned:
+		case <-time.After(3 * time.Second):
+			why += " (a debugger command of the client does not return)"
 		}
-		return nil, fmt.Sprintf("the run does not end although the client continued %d suspensions", atomic.LoadInt64(&conts))
+		return nil, why
 	}
 	close(stop)
 	clientDone.Wait()
@@ -598,6 +634,7 @@ func c15Programs(rng *rand.Rand, n int) []string {
 		"total := 0\nfor i in range(1, 5) {\n    if i % 2 == 0 {\n        continue\n    }\n    total := total + i\n    log(\"i=\", i)\n}\ntry {\n    raise(\"E1\", \"detail\")\n} except \"E1\" as e {\n    log(\"caught \", e.type)\n} finally {\n    total := total + 100\n}\ntotal\n",
 		"func fib(n) {\n    if n < 2 {\n        return n\n    }\n    return fib(n - 1) + fib(n - 2)\n}\nr := fib(6)\nlog(r)\nr\n",
 		"cnt := 0\nsink s1\n    kindmatch [\"c.ev\"],\n    {\n        mutex m {\n            cnt := cnt + event.state.n\n        }\n        log(\"s1 \", event.state.n)\n    }\nsink s2\n    kindmatch [\"c.*\"],\n    priority 5,\n    {\n        func h(a) {\n            return a * 2\n        }\n        mutex m {\n            cnt := cnt + h(1)\n        }\n    }\n",
+		"cnt := 0\nfunc work(a) {\n    b := a + 1\n    return b\n}\nfunc deep(a) {\n    return work(work(a))\n}\nsink w1\n    kindmatch [\"c.ev\"],\n    {\n        r := 0\n        for i in range(1, 12) {\n            r := deep(r)\n        }\n        mutex m {\n            cnt := cnt + r\n        }\n    }\nsink w2\n    kindmatch [\"c.ev\"],\n    {\n        r := 0\n        for i in range(1, 12) {\n            r := work(r)\n        }\n        mutex m {\n            cnt := cnt + r\n        }\n    }\nsink w3\n    kindmatch [\"c.*\"],\n    {\n        r := deep(deep(1))\n        mutex m {\n            cnt := cnt + r\n        }\n    }\n",
 		"m := {\"a\" : 1}\nm.self := m\nfunc t(q) {\n    return q.a\n}\nv := t(m)\nlog(v)\n",
 		"func bad() {\n    raise(\"Boom\")\n}\nfunc outer() {\n    try {\n        bad()\n    } except {\n        log(\"handled\")\n    }\n    return 7\n}\nq := outer()\nq\n",
 	}
@@ -751,11 +788,17 @@ func C15(r *ev.Run) {
 	verifhook.Set(func(string, ...interface{}) {})
 	bindMark()
 	progs := c15Programs(rng, pick(tier, 60, 600))
-	compared := 0
+	compared, stuckRuns := 0, 0
 	for pi, src := range progs {
+		if stuckRuns >= 3 {
+			break // every stuck run leaves goroutines behind and costs its whole time bound
+		}
 		events := 0
 		if strings.Contains(src, "sink ") {
 			events = 6
+			if strings.Contains(src, "sink w3") {
+				events = 40 // many invocations at once on the pool: suspended threads next to threads entering functions
+			}
 		}
 		plain, why := runObserved(src, false, rng, nil, events)
 		if why != "" || plain == nil {
@@ -772,6 +815,7 @@ func C15(r *ev.Run) {
 			replay := map[string]interface{}{"program": src, "breakpoints": bps}
 			switch {
 			case why != "":
+				stuckRuns++
 				sig := "C15 debugged run does not end / crashes"
 				if strings.HasPrefix(why, "panic") {
 					sig = "C15 fault under the debugger: " + firstWords(why, 7)
